@@ -100,6 +100,7 @@ type pathState struct {
 	osFiles     map[*value]value
 	harnessRaces int
 	sleep       []TInfo
+	skippedSibling int
 	delays      int // cost of the schedule choices so far (delay-bounded exploration)
 	itemSleep   []TInfo
 	objIDs      map[interface{}]int
@@ -108,6 +109,7 @@ type pathState struct {
 	once        map[*value]*value
 	wg          map[*value]*value
 	smaps       map[*value]*omap
+	pools       map[*value][]poolItem
 	opaqueFmt   int
 	ndChoices   []ndChoiceRec
 	nAsserts    int
@@ -449,6 +451,14 @@ func (ps *pathState) assume(cond *smt.Term) {
 // assert checks cond on the current path; a feasible negation is a violation.
 func (ps *pathState) assert(cond *smt.Term, kind, label, site string) {
 	if cond.IsTrue() {
+		return
+	}
+	if kind == "assert" && ps.eng.siblingLabel(label) {
+		// a rig shared by several properties: assertions labelled for a sibling
+		// property are decided by that property's own check; here they are
+		// neither checked nor assumed, so that this check's own assertions further
+		// down the path are still reached when a sibling assertion would fail
+		ps.skippedSibling++
 		return
 	}
 	c := ps.ctx
